@@ -41,4 +41,23 @@ Load(loader, file) ==
   IF r.status = "error" THEN r
   ELSE IF loader \in {"key", "tempo"} /\ Len(r.rows) # 1 THEN [status |-> "error-lines", rows |-> r.rows, errrow |-> 0]
   ELSE r
+
+(* ---- pattern files (io.load_patterns): lines "patternN", "occurrenceM" and "onset, midi" points.   *)
+(* A point belongs to the current occurrence, an occurrence header closes the current occurrence,     *)
+(* a pattern header closes the current occurrence and the current pattern; occurrences without        *)
+(* points and patterns without occurrences do not appear in the result.  Points are identified by      *)
+(* their line number.                                                                                  *)
+RECURSIVE PatRun(_, _, _, _, _)
+PatRun(file, pos, plist, pat, occ) ==
+  LET pat2 == IF occ # <<>> THEN Append(pat, occ) ELSE pat IN
+  IF pos > Len(file) THEN (IF pat2 # <<>> THEN Append(plist, pat2) ELSE plist)
+  ELSE IF file[pos] = "pattern" THEN PatRun(file, pos + 1, IF pat2 # <<>> THEN Append(plist, pat2) ELSE plist, <<>>, <<>>)
+  ELSE IF file[pos] = "occurrence" THEN PatRun(file, pos + 1, plist, pat2, <<>>)
+  ELSE PatRun(file, pos + 1, plist, pat, Append(occ, pos))
+LoadPatterns(file) == PatRun(file, 1, <<>>, <<>>, <<>>)
+(* the same by definition: the points between two consecutive headers form one occurrence; the          *)
+(* occurrences between two consecutive pattern headers form one pattern                                  *)
+Points(file) == {p \in 1..Len(file) : file[p] = "point"}
+SameOcc(file, a, b) == \A q \in (IF a < b THEN a..b ELSE b..a) : file[q] = "point"
+SamePat(file, a, b) == \A q \in (IF a < b THEN a..b ELSE b..a) : file[q] # "pattern"
 =============================================================================
